@@ -111,8 +111,8 @@ CLAIMED["C20"] = (
 
 CLAIMED["C01"] = (
     "constant agreement by evaluating the declarations with big integers (no repository code run), GUARD on special-case branches, SIBLING agreement between the 23 instances of the field template",
-    "Decides for the 23 field packages the structural part of 'field arithmetic is exact': the baked constants agree with each other (modulus limbs = hex modulus of init, q odd, qInvNeg*q = -1 mod 2^w, rSquare = 2^(2wN) mod q, SetOne stores 2^(wN) mod q, Bits/Bytes, qElement, the (q-1)/2+1 threshold of LexicographicallyLargest, smallerThanModulus compares limb i with q_i); Neg has its zero branch, Exp inverts the base exactly under the negative-exponent test, Sqrt has a nil return; every function of a field package has the same multiset of calls/branches/stores/returns as the same function in the sibling packages of equal limb count, except template variants listed with a reason (a one-package edit of any arithmetic routine is reported).",
-    "The carry chains, Montgomery reduction, the inversion algorithm and the assembly kernels are NOT decided to compute the field operations: a change made consistently in the template (all siblings) that keeps calls and constants is out of reach. Sibling agreement is a necessary condition only in the sense that the instances are generated from one template.",
+    "Decides for the 23 field packages the structural part of 'field arithmetic is exact': the baked constants agree with each other (modulus limbs = hex modulus of init, q odd, qInvNeg*q = -1 mod 2^w, rSquare = 2^(2wN) mod q, SetOne stores 2^(wN) mod q, Bits/Bytes, qElement, the (q-1)/2+1 threshold of LexicographicallyLargest, smallerThanModulus compares limb i with q_i); Neg has its zero branch, Exp inverts the base exactly under the negative-exponent test, Sqrt has a nil return; the integer whose bits drive Exp is the exponent parameter or its negation; every function of a field package agrees with the same function in the sibling packages of equal limb count in the module operations it reaches, the objects it writes and the checks that dominate each operation (summaries that a behaviour-preserving restructuring leaves unchanged), except template variants listed with a reason.",
+    "The carry chains, Montgomery reduction, the inversion algorithm and the assembly kernels are NOT decided to compute the field operations: a change made consistently in the template (all siblings) that keeps calls and constants is out of reach. Sibling agreement is a necessary condition only in the sense that the instances are generated from one template; it does not see a change of operands or constants inside one instance.",
     "DESIGN.md section 4 C01",
 )
 CLAIMED["C02"] = (
@@ -173,11 +173,11 @@ def main():
             "name": "gcverif",
             "path": "/verif/checker",
             "serves_properties": sorted(CLAIMED),
-            "kind_free_text": "repository-specific static analyser on go/packages + go/ssa + VTA call graph (x/tools v0.29.0): GUARD (accept-dominance), EFFECTS (mod/ref, alias hazards), PARITY (build-tag siblings), small dataflow lints",
+            "kind_free_text": "repository-specific static analyser on go/packages + go/ssa + VTA call graph (x/tools v0.29.0): GUARD (accept-dominance with callee outcome facts), EFFECTS (mod/ref, alias hazards), DEFASSIGN, PARITY (build-tag siblings), SIBLING (operations/effects/guards agreement), inlined-view order rules, small dataflow lints",
         }],
         "checks": checks,
         "not_applicable": na,
-        "notes": "Technique family: static analysis only; no repository code is executed by any check. Known findings: /verif/known_findings.json. Seeded mutants: /verif/seeded/.",
+        "notes": "Technique family: static analysis only; no repository code is executed by any check. Known findings: /verif/known_findings.json. Seeded mutants: /verif/seeded/. Rules were also exercised against 120 behaviour-preserving restructurings (DESIGN.md 7.3).",
     }
     json.dump(m, open("/verif/MANIFEST.json", "w"), indent=1)
     # validate
